@@ -63,9 +63,10 @@ class Contract:
 
 
 class Loop:
-    def __init__(self, inv, variant=None, key_to_value=None):
+    def __init__(self, inv, variant=None, key_to_value=None, element_fields_written=()):
         self.inv = inv
         self.variant = variant
+        self.element_fields_written = tuple(element_fields_written)   # fields of the iterated list's elements modified by callees (havoced at the cut)
         if key_to_value:
             self.key_to_value = key_to_value
 
@@ -118,6 +119,14 @@ class Book:
         c.cls_name = parts[0] if len(parts) == 2 else None
         if node is not None:
             c.params = [a.arg for a in node.args.args]
+            # constant default values of the real signature (sidecar `defaults` take precedence)
+            auto = {}
+            dfl = node.args.defaults
+            for a_, d_ in zip(node.args.args[len(node.args.args) - len(dfl):], dfl):
+                if isinstance(d_, ast.Constant) and not isinstance(d_.value, float):
+                    auto[a_.arg] = d_.value
+            auto.update(dict(getattr(c, "defaults", {}) or {}))
+            c.defaults = auto
             c.sha256 = hashlib.sha256(sf.segment(node).encode()).hexdigest()
             c.lines = [node.lineno, node.end_lineno]
         else:
